@@ -7,6 +7,12 @@
        of the key, every ciphertext decrypted and hashed) must equal the model's state; crash projections
        ("crash": the durable state at the frozen lower-layer call) must be Recoverable; restarts must rebuild
        exactly the acknowledged map (IndexRight) from the meta blobs alone.
+       A lower-layer call that returned an injected error (family "fault": res = "injected" - no effect -,
+       "injected-after" - the call took effect all the same -, "partial" - half a RemoveBlobs; the process goes on) must be
+       the model's FAILING step of the same call (RecvStartErr, RecvBlobFail, RecvMetaFail, RecvIndexFail, JobGetFail,
+       JobUploadFail, JobDeleteFail: the receive fails unacknowledged, the job gives up with everything kept); the
+       projections and the client view after it, after the continuation and after the later restart are judged by the
+       same rules as everywhere else (an acknowledged blob is fetched as the original).
      - BlobStoreFault.tla: the client view (fetch / stat / enumerate / remove = refused; a receive cut by the
        crash may or may not have happened).
      - "leak" lines (byte and name scan of everything stored underneath) must be empty, "tamper" lines
@@ -45,7 +51,7 @@ CanonF == /\ present' = {} /\ size' = [b \in Blobs |-> 0]
           /\ caps' = [canRemove |-> TRUE, readOnly |-> FALSE, subfetch |-> "yes"]
           /\ reply' = [op |-> "init", res |-> "ok", size |-> 0, list |-> <<>>] /\ limbo' = {}
 CanonE == /\ enc' = {} /\ metas' = {} /\ heap' = {} /\ index' = {} /\ acked' = {} /\ recv' = NoRecv /\ jobs' = {}
-          /\ mode' = "up" /\ todo' = {} /\ nextId' = 1 /\ tam' = NoTam /\ fents' = {} /\ ncrash' = 0
+          /\ mode' = "up" /\ todo' = {} /\ nextId' = 1 /\ tam' = NoTam /\ fents' = {} /\ ncrash' = 0 /\ nfault' = 0
 
 TInit == /\ l = 1 /\ dead = TRUE
          /\ present = {} /\ size = [b \in Blobs |-> 0]
@@ -82,27 +88,72 @@ HeldBy(es, K, M1, E, A) ==
 StillListed(M0, M1, E, A) ==
   \A m \in {x \in M0 : x.id \notin Ids(M1)} : HeldBy(m.ents, {x \in M1 : x.n > m.n}, M1, E, A)
 
+(* Start-up compactions that feed each other: the start-up scan goes on recording meta blobs while the compactions it
+   has started run, so the packed meta blob one of them uploads can be popped, with the meta blobs recorded since, into
+   the next group (Encrypt.tla: ScanOne / JobUpload interleaved).  The restart line is ONE step; a group that holds
+   such a not-yet-uploaded meta blob (an id the model has not handed out yet) waits in `todo` - unused otherwise while
+   a trace is followed - and becomes a job when the upload it waits for is seen: that upload is JobUploadFrom, except
+   that recordMeta's push ends in that group instead of the heap. *)
+UploadIntoPending(j, g) ==
+  /\ Running /\ j \in jobs /\ j.pc \in {"get", "upload"} /\ SubsetEq(j.plains, Dom(index)) /\ j.n < Full
+  /\ LET j1 == [j EXCEPT !.pc = "upload"]
+         rest == Advance((jobs \ {j}) \cup {j1}, j1)
+         M1 == metas \cup {[id |-> nextId, ents |-> {e \in index : e.p \in j.plains}, n |-> j.n]}
+         G == {m \in M1 : m.id \in g} IN
+     /\ metas' = M1
+     /\ IF g \subseteq Ids(M1)
+          THEN jobs' = rest \cup {Job(UNION {PlainsOf(m) : m \in G}, SumN(G), g)} /\ todo' = todo \ {g}
+          ELSE jobs' = rest /\ todo' = todo
+  /\ nextId' = nextId + 1
+  /\ UNCHANGED <<enc, heap, index, acked, recv, mode, tam, fents, ncrash, nfault>>
+
+(* a lower-layer call that succeeded *)
+LowerOk ==
+  CASE Ev.act = "idxmiss" ->
+         \/ RecvStart(Ev.p) /\ recv'.p = Ev.p           \* the duplicate check of a new blob
+         \/ \E j \in jobs : Ev.p \in j.plains /\ JobAbandon(j)
+    [] Ev.act = "blobput" -> Ev.id = nextId /\ RecvBlob
+    [] Ev.act = "metaput" ->
+         /\ Ev.id = nextId
+         /\ \/ Ev.np <= 1 /\ RecvMeta
+            \/ /\ Ev.np # 1
+               /\ IF \E g \in todo : nextId \in g
+                    \* (np = 0: the next start-up compaction had removed it again before it could be projected)
+                    THEN \E j \in jobs, g \in todo : nextId \in g /\ Ev.np \in {0, j.n} /\ UploadIntoPending(j, g)
+                    ELSE /\ Check("no running job packs as many lines as the uploaded packed meta blob has",
+                                  \E j \in jobs : j.pc \in {"get", "upload"} /\ j.n = Ev.np)
+                         /\ \E j \in jobs : j.n = Ev.np /\ JobUploadFrom(j, {"get", "upload"})
+    [] Ev.act = "idxset" -> recv.p = Ev.p /\ recv.c = Ev.c /\ RecvIndex
+    [] Ev.act = "metadel" -> \E j \in jobs : j.del = SeqToSet(Ev.ids) /\ JobDelete(j)
+    [] OTHER -> FALSE
+
+(* a lower-layer call that returned an injected error (family "fault": the process goes on; "injected" = without effect,
+   "injected-after" = the call took effect all the same, "partial" = RemoveBlobs removed only Ev.ids of the meta blobs it
+   was given - also how the crash family cuts a RemoveBlobs half way): the model's failing step of the same call.
+   An upload that failed without effect carries no line count (np = 0: nothing is stored that could be decrypted). *)
+LowerFailed ==
+  LET eff == Ev.res = "injected-after" IN
+  CASE Ev.act = "idxget" ->
+         \/ RecvStartErr(Ev.p)                           \* the duplicate check: the blob is taken for a new one
+         \/ \E j \in jobs : JobGetFail(j, Ev.p)           \* the job gives up
+    [] Ev.act = "blobput" -> (eff => Ev.id = nextId) /\ RecvBlobFail(eff)
+    [] Ev.act = "metaput" ->
+         /\ eff => Ev.id = nextId
+         /\ \/ Ev.np <= 1 /\ RecvMetaFail(eff)
+            \/ Ev.np # 1 /\ \E j \in jobs : (eff => j.n = Ev.np) /\ JobUploadFailFrom(j, {"get", "upload"}, eff)
+    [] Ev.act = "idxset" -> recv.p = Ev.p /\ (eff => recv.c = Ev.c) /\ RecvIndexFail(eff)
+    [] Ev.act = "metadel" ->
+         \E j \in jobs :
+           CASE Ev.res = "partial" -> SeqToSet(Ev.ids) # j.del /\ JobDeleteFail(j, SeqToSet(Ev.ids))
+             [] Ev.res = "injected" -> SeqToSet(Ev.ids) = j.del /\ JobDeleteFail(j, {})
+             [] Ev.res = "injected-after" -> SeqToSet(Ev.ids) = j.del /\ JobDeleteFail(j, j.del)
+             [] OTHER -> FALSE
+    [] OTHER -> FALSE
+
 TLower ==
   /\ IsEv("lower") /\ Live /\ UNCHANGED fvars
-  /\ CASE Ev.act = "idxmiss" ->
-            \/ RecvStart(Ev.p) /\ recv'.p = Ev.p           \* the duplicate check of a new blob
-            \/ \E j \in jobs : Ev.p \in j.plains /\ JobAbandon(j)
-       [] Ev.act = "blobput" -> Ev.id = nextId /\ RecvBlob
-       [] Ev.act = "metaput" ->
-            /\ Ev.id = nextId
-            /\ \/ Ev.np <= 1 /\ RecvMeta
-               \/ /\ Ev.np # 1
-                  /\ Check("no running job packs as many lines as the uploaded packed meta blob has",
-                           \E j \in jobs : j.pc \in {"get", "upload"} /\ j.n = Ev.np)
-                  /\ \E j \in jobs : j.n = Ev.np /\ JobUploadFrom(j, {"get", "upload"})
-       [] Ev.act = "idxset" -> recv.p = Ev.p /\ recv.c = Ev.c /\ RecvIndex
-       [] Ev.act = "metadel" ->
-            \E j \in jobs :
-              \/ j.del = SeqToSet(Ev.ids) /\ JobDelete(j)
-              \/ /\ SeqToSet(Ev.ids) # j.del /\ SeqToSet(Ev.ids) \subseteq j.del /\ j.pc = "delete"    \* cut by the crash
-                 /\ metas' = {m \in metas : m.id \notin SeqToSet(Ev.ids)}
-                 /\ jobs' = jobs \ {j}
-                 /\ UNCHANGED <<enc, heap, index, acked, recv, mode, todo, nextId, tam, fents, ncrash>>
+  /\ CASE Ev.res = "ok" -> LowerOk
+       [] Ev.res \in {"injected", "injected-after", "partial"} -> LowerFailed
        [] OTHER -> FALSE
   /\ IF Ev.act = "metadel"
        THEN Check("an acknowledged blob is no longer listed in any stored meta blob (Recoverable)", StillListed(metas, metas', enc', acked'))
@@ -131,6 +182,15 @@ TReceiveOk ==
 (* a receive cut by the crash (the process died: whatever it returned was never seen) *)
 TReceiveCut ==
   /\ IsEv("op") /\ Live /\ Ev.op = "receive" /\ Ev.flt /\ Ev.res \in FailClasses
+  /\ FailedReceive(Ev.b)
+  /\ UNCHANGED evars
+  /\ Mark
+
+(* a receive that failed on an injected lower-layer error (family "fault"): the model's receive has given up at the
+   failing step; the client saw an error, the blob may or may not be there (BlobStoreFault: limbo) *)
+TReceiveFailed ==
+  /\ IsEv("op") /\ Live /\ Ev.op = "receive" /\ Ev.flt /\ Ev.res = "injected"
+  /\ recv = NoRecv
   /\ FailedReceive(Ev.b)
   /\ UNCHANGED evars
   /\ Mark
@@ -198,7 +258,7 @@ TCrash ==
   /\ mode' = "down" /\ heap' = {} /\ jobs' = {} /\ recv' = NoRecv /\ todo' = {} /\ ncrash' = ncrash + 1
   /\ Check("crash state: index rows differ from the model's", Ev.exact => ProjIndex = index)
   /\ nextId' = Ev.nextid
-  /\ UNCHANGED <<acked, tam, fents, fvars>>
+  /\ UNCHANGED <<acked, tam, fents, nfault, fvars>>
   /\ Mark
 
 Groups == {SeqToSet(Ev.groups[i]) : i \in 1..Len(Ev.groups)}
@@ -206,25 +266,28 @@ MetaById(i) == CHOOSE m \in metas : m.id = i
 
 (* a fresh instance: the start-up scan rebuilds the index from the meta blobs (wipe: the old rows are gone),
    records every meta blob of at most Full lines and starts one compaction per Limit+1 recorded (groups = what
-   the jobs then removed; a gather that closed a group early - more than Full lines - leaves smaller groups) *)
+   the jobs then removed; a gather that closed a group early - more than Full lines - leaves smaller groups; a group
+   may hold the packed meta blob that an earlier compaction of the same start-up uploaded meanwhile) *)
 Recordable == {m \in metas : m.n <= Full}
 GroupMetas(g) == {m \in metas : m.id \in g}
+Waiting(g) == ~(g \subseteq Ids(metas))        \* holds the packed meta blob another start-up compaction is about to upload (see UploadIntoPending)
 TRestart ==
   /\ IsEv("restart") /\ Live /\ Ev.res = "ok" /\ ~Ev.frozen
   /\ mode \in {"up", "down"} /\ jobs = {} /\ recv = NoRecv
   /\ Check("conflicting entries in the meta blobs", Functional(AllEnts(metas)))
   /\ index' = Override(IF Ev.wipe THEN {} ELSE index, AllEnts(metas))
   /\ Check("start-up compaction of unknown or full meta blobs, or of a wrong number of them",
-           \A g \in Groups : /\ g \subseteq Ids(Recordable)
+           \A g \in Groups : /\ (g \cap Ids(metas)) \subseteq Ids(Recordable)
+                              /\ \A x \in g \ Ids(metas) : x >= nextId      \* the packed meta blob of another start-up compaction
                               /\ \/ Cardinality(g) = Limit + 1
                                  \/ SumN(GroupMetas(g)) > Full
-                                 \/ Cardinality(g) \in 2..Limit /\ \E h \in Groups : SumN(GroupMetas(h)) > Full)
+                                 \/ Cardinality(g) \in 2..Limit /\ (Waiting(g) \/ \E h \in Groups : SumN(GroupMetas(h)) > Full))
   /\ Check("start-up compactions overlap", \A g, h \in Groups : g = h \/ g \cap h = {})
-  /\ jobs' = {Job(UNION {PlainsOf(m) : m \in GroupMetas(g)}, SumN(GroupMetas(g)), g) : g \in Groups}
+  /\ jobs' = {Job(UNION {PlainsOf(m) : m \in GroupMetas(g)}, SumN(GroupMetas(g)), g) : g \in {h \in Groups : ~Waiting(h)}}
   /\ heap' = {HeapEl(m.id, PlainsOf(m), m.n) : m \in {x \in Recordable : x.id \notin UNION Groups}}
   /\ Check("more than Limit small meta blobs tracked without compaction", Cardinality(heap') <= Limit)
-  /\ mode' = "up" /\ recv' = NoRecv /\ todo' = {}
-  /\ UNCHANGED <<enc, metas, acked, nextId, tam, fents, ncrash>>
+  /\ mode' = "up" /\ recv' = NoRecv /\ todo' = {g \in Groups : Waiting(g)}
+  /\ UNCHANGED <<enc, metas, acked, nextId, tam, fents, ncrash, nfault>>
   /\ Check("IndexRight: an acknowledged blob is not in the rebuilt index", acked \subseteq Dom(index'))
   /\ Check("IndexRight: an index row without stored ciphertext", \A e \in index' : [id |-> e.c, p |-> e.p] \in enc)
   \* client view: exactly the rebuilt index; nothing but the blobs of interrupted receives may differ
@@ -265,7 +328,7 @@ TTamper ==
 TGiveUp == ~dead /\ l <= Len(Trace) /\ Ev.ev # "reset" /\ l' = l + 1 /\ dead' = TRUE /\ CanonF /\ CanonE
 TSkip == dead /\ l <= Len(Trace) /\ Ev.ev # "reset" /\ l' = l + 1 /\ UNCHANGED <<fvars, evars, dead>>
 
-TNext == TReset \/ TLower \/ TReceiveOk \/ TReceiveCut \/ TRecvN \/ TFetchN \/ TRead \/ TState \/ TCrash \/ TRestart \/ TRestartCut
+TNext == TReset \/ TLower \/ TReceiveOk \/ TReceiveCut \/ TReceiveFailed \/ TRecvN \/ TFetchN \/ TRead \/ TState \/ TCrash \/ TRestart \/ TRestartCut
          \/ TLeak \/ TTamper \/ TGiveUp \/ TSkip
 TSpec == TInit /\ [][TNext]_tvars
 (* TypeOK of BlobStore (present \subseteq Blobs) said so that TLC needs no search in a set of 10^4 elements per blob *)
